@@ -194,6 +194,9 @@ pub unsafe extern "C" fn bundle_free(ptr: *mut Bundle) {
 
 /// Get the metadata from a given bundle.
 ///
+/// In case the source or destination EndpointID contains a NUL character and can therefore
+/// not be represented as a C string, a null pointer is returned instead of the metadata.
+///
 /// # Safety
 ///
 /// Should only be called from FFI interface.
@@ -205,9 +208,15 @@ pub unsafe extern "C" fn bundle_get_metadata(bndl: *mut Bundle) -> *mut BundleMe
     let timestamp = bndl.primary.creation_timestamp.dtntime();
     let seqno = bndl.primary.creation_timestamp.seqno();
     let lifetime = bndl.primary.lifetime.as_millis() as u64;
-    let src_str = CString::new(bndl.primary.source.to_string()).unwrap();
+    // both strings are still owned here: nothing is leaked when one of them is rejected
+    let (src_str, dst_str) = match (
+        CString::new(bndl.primary.source.to_string()),
+        CString::new(bndl.primary.destination.to_string()),
+    ) {
+        (Ok(src_str), Ok(dst_str)) => (src_str, dst_str),
+        _ => return std::ptr::null_mut::<BundleMetaData>(),
+    };
     let src = src_str.into_raw();
-    let dst_str = CString::new(bndl.primary.destination.to_string()).unwrap();
     let dst = dst_str.into_raw();
     Box::into_raw(Box::new(BundleMetaData {
         src,
